@@ -179,8 +179,10 @@ Proof.
   destruct s as [|c s]; [contradiction|]. pose proof D as D'. cbn [forallb] in D. apply andb_true_iff in D as [Dc Ds].
   cbn [skip]. rewrite (digit_not_space _ Dc). destruct (digit_sign c s Dc) as [-> ->].
   rewrite (scan_digits _ 0 0 D'). fold (dval (c :: s)).
-  assert ((0 + Z.of_nat (length (c :: s)) =? 0) = false) as -> by (cbn [length]; lia).
-  assert ((int_max_str_digits <? 0 + Z.of_nat (length (c :: s))) = false) as -> by (unfold int_max_str_digits; lia).
+  assert (P : 0 < Z.of_nat (length (c :: s))) by (cbn [length]; lia).
+  set (n := Z.of_nat (length (c :: s))) in *. clearbody n. clear -Len P.
+  assert ((0 + n =? 0) = false) as -> by lia.
+  assert ((int_max_str_digits <? 0 + n) = false) as -> by (unfold int_max_str_digits; lia).
   reflexivity.
 Qed.
 Lemma fold_dstep_zero s acc : forallb digit s = true -> 0 <= acc ->
@@ -190,8 +192,10 @@ Proof.
   - cbn. split; [exact A|]. tauto.
   - cbn [forallb] in D. apply andb_true_iff in D as [Dc Ds]. cbn [fold_left forallb].
     assert (0 <= dstep acc c) by (unfold dstep, digit in *; lia).
-    destruct (IH _ Ds H) as [P Q]. split; [exact P|]. rewrite Q. unfold dstep, digit in *.
-    rewrite andb_true_iff. split; intros [X Y]; repeat split; try assumption; lia.
+    destruct (IH _ Ds H) as [P Q]. split; [exact P|]. rewrite Q. rewrite andb_true_iff. unfold dstep, digit in *.
+    split.
+    + intros [X Y]. split; [lia|]. split; [lia|exact Y].
+    + intros [X [Y1 Y2]]. split; [lia|exact Y2].
 Qed.
 Lemma dval_nonzero s : forallb digit s = true -> (dval s =? 0) = negb (existsb (fun c => negb (c =? 48)) s).
 Proof.
@@ -218,9 +222,9 @@ Proof.
   - cbn [forallb] in H. apply andb_true_iff in H as [Hx Hs]. specialize (IH Hs). cbn [fields length].
     destruct (x =? c) eqn:E.
     + constructor; [split; [reflexivity|cbn; lia]|]. eapply Forall_impl; [|exact IH]. cbn. intros a [A B]. split; [exact A|lia].
-    + destruct (fields c s) as [|h t] eqn:F; [constructor; [|constructor]; cbn; rewrite E in Hx; rewrite orb_false_r in Hx; rewrite Hx; split; [reflexivity|lia]|].
+    + destruct (fields c s) as [|h t] eqn:F; [exfalso; exact (fields_nonempty _ _ F)|].
       inversion IH; subst. destruct H1 as [A B]. constructor.
-      * cbn [forallb length]. rewrite E, orb_false_r in Hx. rewrite Hx, A. split; [reflexivity|lia].
+      * cbn [forallb length]. rewrite orb_false_r in Hx. rewrite Hx, A. split; [reflexivity|lia].
       * eapply Forall_impl; [|exact H2]. cbn. intros a [A' B']. split; [exact A'|lia].
 Qed.
 Lemma fraction_ok n d : is_ok (fraction n d) = negb (d =? 0).
@@ -242,8 +246,108 @@ Proof.
     rewrite andb_false_r in H. discriminate H. }
   rewrite (py_int_digits _ Da) by (congruence || assumption). rewrite (py_int_digits _ Db) by (congruence || assumption).
   cbn [bind]. rewrite Da, Db in *. cbn [andb] in *.
-  assert (X : is_ok (do f <- fraction (dval (a0 :: a)) (dval (b0 :: b)); Ok (copt (fun f0 : Z * Z => CFrac (fst f0) (snd f0)) (Some f))) =
-              negb (dval (b0 :: b) =? 0)).
-  { rewrite <- fraction_ok. destruct (fraction (dval (a0 :: a)) (dval (b0 :: b))); reflexivity. }
+  assert (X : is_ok (do x <- (do f <- fraction (dval (a0 :: a)) (dval (b0 :: b)); Ok (Some f));
+                     Ok (copt (fun f : Z * Z => CFrac (fst f) (snd f)) x)) = negb (dval (b0 :: b) =? 0)).
+  { unfold fraction. destruct (dval (b0 :: b) =? 0); reflexivity. }
   rewrite X, (dval_nonzero _ Db), negb_involutive. apply negb_false_iff in L2. rewrite L2. cbn [andb]. tauto.
+Qed.
+
+(* ---- stl_reader.program_start_tc *)
+Fixpoint join (c : Z) (l : list text) : text :=
+  match l with [] => [] | x :: r => match r with [] => x | _ => x ++ c :: join c r end end.
+Lemma fields_join c s : join c (fields c s) = s.
+Proof.
+  induction s as [|x s IH]; [reflexivity|]. cbn [fields].
+  pose proof (fields_nonempty c s) as NE. destruct (fields c s) as [|h t]; [contradiction|].
+  destruct (x =? c) eqn:E.
+  - apply Z.eqb_eq in E. subst x. cbn [join app]. cbn [join] in IH. rewrite IH. reflexivity.
+  - cbn [join]. cbn [join] in IH. destruct t as [|t0 t']; [rewrite IH; reflexivity|]. cbn [app]. rewrite IH. reflexivity.
+Qed.
+Lemma two_digits x : all_digits x && (Z.of_nat (length x) =? 2) = true -> exists a b, x = [a; b] /\ digit a = true /\ digit b = true.
+Proof.
+  destruct x as [|a [|b [|c x]]]; cbn [all_digits forallb length]; intro H.
+  - discriminate H.
+  - apply andb_true_iff in H as [_ H]. lia.
+  - destruct (digit a) eqn:A; destruct (digit b) eqn:B; try discriminate H; eauto.
+  - apply andb_true_iff in H as [_ H]. lia.
+Qed.
+Lemma tc_ok_shape s : tc_ok s = true ->
+  exists h1 h2 m1 m2 s1 s2 f1 f2, s = [h1; h2; 58; m1; m2; 58; s1; s2; 58; f1; f2] /\
+    forallb digit [h1; h2; m1; m2; s1; s2; f1; f2] = true.
+Proof.
+  unfold tc_ok. intro H. pose proof (fields_join 58 s) as J.
+  destruct (fields 58 s) as [|h [|m [|sec [|f [|]]]]]; try discriminate H.
+  cbn [forallb] in H. apply andb_true_iff in H as [Hh H]. apply andb_true_iff in H as [Hm H].
+  apply andb_true_iff in H as [Hs H]. apply andb_true_iff in H as [Hf _].
+  destruct (two_digits _ Hh) as (h1 & h2 & -> & A1 & A2). destruct (two_digits _ Hm) as (m1 & m2 & -> & B1 & B2).
+  destruct (two_digits _ Hs) as (s1 & s2 & -> & C1 & C2). destruct (two_digits _ Hf) as (f1 & f2 & -> & D1 & D2).
+  exists h1, h2, m1, m2, s1, s2, f1, f2. split; [symmetry; exact J|].
+  cbn [forallb]. rewrite A1, A2, B1, B2, C1, C2, D1, D2. reflexivity.
+Qed.
+Lemma digit_not_colon c : digit c = true -> (c =? 58) = false.
+Proof. unfold digit. lia. Qed.
+Lemma tc_ok_of_shape a b c d e f g h :
+  forallb digit [a; b; c; d; e; f; g; h] = true -> tc_ok [a; b; 58; c; d; 58; e; f; 58; g; h] = true.
+Proof.
+  cbn [forallb]. rewrite !andb_true_iff. intros (A & B & C & D & E & F & G & H & _).
+  unfold tc_ok. cbn [fields].
+  rewrite (digit_not_colon _ A), (digit_not_colon _ B), (digit_not_colon _ C), (digit_not_colon _ D),
+          (digit_not_colon _ E), (digit_not_colon _ F), (digit_not_colon _ G), (digit_not_colon _ H).
+  cbn [Z.eqb Pos.eqb]. cbn [forallb all_digits length]. rewrite A, B, C, D, E, F, G, H. reflexivity.
+Qed.
+Lemma ndf_df s : ndf_match s = true -> df_match s = true.
+Proof.
+  destruct s as [|a [|b [|x [|c [|d [|y [|e [|f [|z [|g [|h r]]]]]]]]]]]; try discriminate.
+  unfold ndf_match. intro M. rewrite !andb_true_iff in M. destruct M as ((((((((((A & B) & X) & C) & D) & Y) & E) & F) & Z) & G) & H).
+  unfold df_match, df_sep. rewrite A, B, C, D, E, F, G, H, X, Y, Z. reflexivity.
+Qed.
+Lemma tcp_plain : upper_plain (T "TCP").
+Proof. vm_compute. repeat constructor; try lia; discriminate. Qed.
+Lemma acc_start_tc v : v <> JNull -> trigger KStartTc v = false -> agrees KStartTc v.
+Proof.
+  intros NN Tr. apply trigger_false in Tr as (_ & L & _). unfold agrees.
+  destruct v; try contradiction; try (split; intro H; discriminate H).
+  cbn [trigger_lenient] in L. unfold accepts, decode, dec_start_tc, documented.
+  destruct (text_eqb s (T "TCP")) eqn:E.
+  - apply text_eqb_eq in E. subst. split; reflexivity.
+  - cbn [negb andb orb] in L |- *. apply orb_false_iff in L as [Ci Sh].
+    destruct (text_eqb (py_upper s) (T "TCP")) eqn:U; [rewrite (py_upper_ci _ _ tcp_plain U) in Ci; discriminate|].
+    assert (A : forall b : bool, is_ok (do x <- (if b then Ok (Some s) else Raise EValue); Ok (copt CText x)) = b) by (intros []; reflexivity).
+    rewrite A. clear A. split.
+    + intro M. assert (D : df_match s = true).
+      { destruct (df_match s) eqn:D'; [reflexivity|]. cbn [orb] in M. rewrite (ndf_df _ M) in D'. discriminate D'. }
+      clear M. destruct s as [|a [|b [|x [|c [|d [|y [|e [|f [|z [|g [|h r]]]]]]]]]]]; try discriminate D.
+      destruct r as [|r0 r]; [|cbn [length] in Sh; lia].
+      apply negb_false_iff in Sh. rewrite !andb_true_iff in Sh. destruct Sh as ((X & Y) & Z).
+      apply Z.eqb_eq in X, Y, Z. subst x y z.
+      unfold df_match in D. rewrite !andb_true_iff in D. destruct D as ((((((((((A & B) & _) & C) & D) & _) & E') & F) & _) & G) & H).
+      apply tc_ok_of_shape. cbn [forallb]. change digit with is_d. rewrite A, B, C, D, E', F, G, H. reflexivity.
+    + intro M. destruct (tc_ok_shape _ M) as (h1 & h2 & m1 & m2 & s1 & s2 & f1 & f2 & -> & Dg).
+      cbn [forallb] in Dg. rewrite !andb_true_iff in Dg. destruct Dg as (A & B & C & D & E' & F & G & H & _).
+      unfold df_match. change is_d with digit. rewrite A, B, C, D, E', F, G, H. reflexivity.
+Qed.
+
+(* ------------------------------------------------------------------ all keys but colours and font stacks *)
+Definition table_key (k : key) : bool :=
+  match k with KColor | KBgColor | KFontStack => false | _ => true end.
+Theorem config_accepts k v :
+  table_key k = true -> v <> JNull -> trigger k v = false -> (accepts k v = true <-> documented k v = true).
+Proof.
+  intros K NN Tr. destruct k; try discriminate K.
+  - exact (acc_log_level v NN Tr).
+  - exact (acc_bool _ v eq_refl Tr).
+  - exact (acc_document_lang v NN Tr).
+  - exact (acc_time_format v NN).
+  - exact (acc_fps v NN Tr).
+  - exact (acc_scc_text_align v NN Tr).
+  - exact (acc_bool _ v eq_refl Tr).
+  - exact (acc_start_tc v NN Tr).
+  - exact (acc_bool _ v eq_refl Tr).
+  - exact (acc_max_row_count v NN Tr).
+  - exact (acc_bool _ v eq_refl Tr).
+  - exact (acc_bool _ v eq_refl Tr).
+  - exact (acc_bool _ v eq_refl Tr).
+  - exact (acc_bool _ v eq_refl Tr).
+  - exact (acc_safe_area v NN Tr).
+  - exact (acc_bool _ v eq_refl Tr).
 Qed.
